@@ -38,7 +38,9 @@ QUICK_PATTERNS = [['first', 'next', 'next', 'prev'], ['last', 'prev', 'next', 'n
                   # absolute repositioning after the cursor has moved
                   ['first', 'next', 'first', 'next'], ['seek', 'first', 'next'], ['last', 'prev', 'last', 'prev'], ['seek', 'last', 'prev'],
                   # absolute repositioning while the cursor is parked in the opposite direction
-                  ['last', 'prev', 'first', 'next'], ['first', 'next', 'last', 'prev']]
+                  ['last', 'prev', 'first', 'next'], ['first', 'next', 'last', 'prev'],
+                  # absolute repositioning after the cursor fell off an end
+                  ['first', 'prev', 'first', 'next'], ['last', 'next', 'last', 'prev'], ['first', 'prev', 'seek'], ['last', 'next', 'seek']]
 
 
 LABEL_CLEANUP = 'a registered clean-up closure runs while the merging iterator is still alive (a database iterator releases its pinned version this way: the table files it reads can then be deleted under it)'
